@@ -3,7 +3,8 @@
      parsers.auto_detect_csv_format (header matching)  (src/tally/parsers.py:334-402)
      the suggestion builder of commands/inspect.py     (src/tally/commands/inspect.py:157-175)
    on top of the constants regenerated from the source (Gen/C18Keywords.v: RESERVED_NAMES, the
-   default date formats, the four header keyword lists).
+   default date formats, the four header keyword lists).  CPython's string.Formatter().parse, which the
+   template validation calls, is a parameter of the model (fparse), not modelled.
    Strings are byte strings; the model is exact on the ASCII fragment (str.lower, str.strip's
    whitespace set and the regex class \w are modelled for ASCII; bytes >= 128 are neither blank
    nor word characters and are left alone by lower).  No proofs here. *)
@@ -127,7 +128,7 @@ Definition match_field (s : string) : option (sign * string * option string) :=
 
 (* ---------------------------------------------------------------- the column loop ------- *)
 Inductive perr := EInvalidColumn (idx : nat) | EDuplicate (name : string) (idx : nat)
-                | ENoDescription | ENeedTemplate | EUncaptured (ref : string) | EMissingRequired.
+                | ENoDescription | ENeedTemplate | EBadTemplate | EUncaptured (ref : string) | EMissingRequired.
 Inductive res (A : Type) := Ok (v : A) | Err (e : perr).
 Arguments Ok {A} v.
 Arguments Err {A} e.
@@ -181,53 +182,42 @@ Fixpoint run (idx : nat) (parts : list string) (s : pstate) : res pstate :=
               end
   end.
 
-(* ---------------------------------------------------------------- the template scans ---- *)
-(* re.findall(r'\{(\w+)\}', template): st = None outside a candidate, Some acc after "{" + acc *)
-Fixpoint refs_go (st : option string) (s : string) : list string :=
-  match s with
-  | EmptyString => []
-  | String c r =>
-      match st with
-      | None => if Ascii.eqb c ch_lbrace then refs_go (Some EmptyString) r else refs_go None r
-      | Some acc =>
-          if is_word c then refs_go (Some (acc ++ String c EmptyString)) r
-          else if Ascii.eqb c ch_rbrace then
-                 (if is_empty acc then refs_go None r else acc :: refs_go None r)
-          else if Ascii.eqb c ch_lbrace then refs_go (Some EmptyString) r
-          else refs_go None r
-      end
-  end.
-Definition template_refs (t : string) : list string := refs_go None t.
+(* ---------------------------------------------------------------- the template scan ----- *)
+(* _template_field_names(template): the names str.format would look up.  string.Formatter().parse is
+   CPython library code: it is a parameter (fparse) of the model, never modelled.  fparse t = Some l
+   lists the replacement fields of t as (field_name, format_spec) pairs (format_spec "" when absent);
+   None = the library raises ValueError (not a valid format string).
+   tally's own part is modelled: the name is field_name cut at the first "." or "["
+   (re.split(r'[.\[]', field_name, maxsplit=1)[0]), and a non-empty format_spec is scanned recursively.
+   A format_spec is a proper substring of its template, so the recursion depth is bounded by the
+   length of the template: fuel = S (length t) never runs out on the real library. *)
+Definition is_name_split (c : ascii) : bool := (Ascii.eqb c "."%char || Ascii.eqb c "["%char)%bool.
+Definition arg_name (field : string) : string := fst (span (fun c => negb (is_name_split c)) field).
 
-(* The names str.format looks up in the captures (the reference semantics of "the template names a
-   column"): the arg_name of every replacement field, i.e. the text after a single "{" up to the
-   first of  . [ } : !   ("{{" and "}}" are literal braces).  Exact on templates whose format
-   specs contain no nested braces; a malformed template (on which str.format raises ValueError)
-   yields the names found before the malformation. *)
-Inductive fstate := FLit | FOpen | FName (acc : string) | FSkip | FClose.
-Definition is_name_end (c : ascii) : bool :=
-  (Ascii.eqb c "."%char || Ascii.eqb c "["%char || Ascii.eqb c ch_rbrace || Ascii.eqb c ch_colon
-   || Ascii.eqb c "!"%char)%bool.
-Definition emit (acc : string) (l : list string) : list string := if is_empty acc then l else acc :: l.
-Fixpoint names_go (st : fstate) (s : string) : list string :=
-  match s with
-  | EmptyString => []
-  | String c r =>
-      match st with
-      | FLit => if Ascii.eqb c ch_lbrace then names_go FOpen r
-                else if Ascii.eqb c ch_rbrace then names_go FClose r else names_go FLit r
-      | FClose => if Ascii.eqb c ch_rbrace then names_go FLit r else []
-      | FOpen => if Ascii.eqb c ch_lbrace then names_go FLit r
-                 else if is_name_end c then (if Ascii.eqb c ch_rbrace then names_go FLit r else names_go FSkip r)
-                 else names_go (FName (String c EmptyString)) r
-      | FName acc => if Ascii.eqb c ch_lbrace then []
-                     else if is_name_end c then
-                            emit acc (if Ascii.eqb c ch_rbrace then names_go FLit r else names_go FSkip r)
-                     else names_go (FName (acc ++ String c EmptyString)) r
-      | FSkip => if Ascii.eqb c ch_rbrace then names_go FLit r else names_go FSkip r
+(* for _, field_name, format_spec, _ in parse(template): names.append(cut(field_name));
+   if format_spec: names.extend(recursive call) -- rec is the recursive call *)
+Fixpoint collect (rec : string -> option (list string)) (l : list (string * string)) : option (list string) :=
+  match l with
+  | [] => Some []
+  | (fld, spec) :: r =>
+      match (if is_empty spec then Some [] else rec spec), collect rec r with
+      | Some a, Some b => Some (arg_name fld :: a ++ b)
+      | _, _ => None
       end
   end.
-Definition format_names (t : string) : list string := names_go FLit t.
+
+Section Formatter.
+Variable fparse : string -> option (list (string * string)).
+
+Fixpoint tnames (fuel : nat) (t : string) : option (list string) :=
+  match fuel with
+  | 0 => None
+  | S f => match fparse t with
+           | None => None
+           | Some fields => collect (tnames f) fields
+           end
+  end.
+Definition template_names (t : string) : option (list string) := tnames (S (String.length t)) t.
 
 (* ---------------------------------------------------------------- validation + result --- *)
 Record fspec := {
@@ -245,10 +235,21 @@ Fixpoint lookup (k : string) (d : list (string * nat)) : option nat :=
 
 (* `if description_template:` — None and '' are both false *)
 Definition truthy (t : option string) : bool := match t with Some s => negb (is_empty s) | None => false end.
-Definition tmpl_refs (t : option string) : list string :=
-  match t with Some s => template_refs s | None => [] end.
 Fixpoint first_missing (refs : list string) (have : list string) : option string :=
   match refs with [] => None | r :: rest => if mem r have then first_missing rest have else Some r end.
+
+(* `if description_template:` try: refs = _template_field_names(...) except ValueError: raise ValueError;
+   for ref in refs: if ref not in custom_captures: raise ValueError *)
+Definition check_template (tmpl : option string) (have : list string) : option perr :=
+  match tmpl with
+  | Some t =>
+      if is_empty t then None
+      else match template_names t with
+           | None => Some EBadTemplate
+           | Some names => match first_missing names have with Some r => Some (EUncaptured r) | None => None end
+           end
+  | None => None
+  end.
 
 Definition finish (s : pstate) (tmpl : option string) : res fspec :=
   let has_desc := mem "description" (keys (fp s)) in
@@ -259,8 +260,8 @@ Definition finish (s : pstate) (tmpl : option string) : res fspec :=
   let has_custom := if both then false else has_custom0 in
   if (negb has_desc && negb has_custom)%bool then Err ENoDescription
   else if (has_custom && negb (truthy tmpl))%bool then Err ENeedTemplate
-  else match (if truthy tmpl then first_missing (tmpl_refs tmpl) (keys cc') else None) with
-       | Some r => Err (EUncaptured r)
+  else match check_template tmpl (keys cc') with
+       | Some e => Err e
        | None =>
            match lookup "date" (fp s), lookup "amount" (fp s) with
            | Some d, Some a =>
@@ -278,6 +279,7 @@ Definition parse_format (format_str : string) (tmpl : option string) : res fspec
   | Ok s => finish s tmpl
   | Err e => Err e
   end.
+End Formatter.
 
 (* ---------------------------------------------------------------- auto-detect ----------- *)
 Fixpoint contains (needle hay : string) : bool :=
